@@ -301,6 +301,39 @@ def h_snapshot(ctx, via):
   ctx.witness('tag' if usevlan else 'address')
 
 
+def h_data_and_id(ctx):
+  """a packet_out that names a buffer **and** carries data (the specification: data is only meaningful without a buffer id): the buffer is used -
+  its packet goes through the actions - and freed; it is not left occupied behind the data"""
+  env.get_core()
+  of = ctx.pox('pox.openflow.libopenflow_01'); swm = ctx.pox('pox.datapaths.switch'); pkt = ctx.pox('pox.lib.packet')
+  sw = swm.SoftwareSwitch(dpid=1, ports=4, miss_send_len=128, max_buffers=1)
+  sent = []
+  class Conn:
+    def send(c, msg): sent.append(msg)
+    def set_message_handler(c, h): pass
+  sw.set_connection(Conn())
+  outs = []
+  sw.addListenerByName('DpPacketOut', lambda e: outs.append((e.port.port_no, e.packet.pack())))
+  def frame(tag): return env.tobytes(ctx, [2, 0, 0, 0, 0, 9, 2, 0, 0, 0, 0, tag, 0x08, 0x01] + list(ctx.bytes('pay%d' % tag, 6)))
+  stored = frame(1); other = frame(2)
+  sw.rx_packet(pkt.ethernet(stored), 1)
+  pis = [m for m in sent if isinstance(m, of.ofp_packet_in)]
+  ctx.check('miss: packet-in with a buffer id', len(pis) == 1 and pis[0].buffer_id is not None)
+  if len(pis) != 1 or pis[0].buffer_id is None: return
+  bid = of.ofp_packet_in.unpack_new(pis[0].pack())[1].buffer_id
+  # (POX's own encoder refuses to build such a message; it comes from another controller: the bytes are put together here)
+  wire = of.ofp_packet_out(in_port=0xffff, buffer_id=bid, actions=[of.ofp_action_output(port=2)]).pack()
+  wire = wire[:2] + env.tobytes(ctx, be(len(wire) + len(other), 2)) + wire[4:] + other
+  sw.rx_message(sw._connection, of.ofp_packet_out.unpack_new(wire)[1])
+  ctx.check('the buffered packet is emitted through the actions, once', len(outs) == 1 and outs[0][0] == 2 and ctx.Eq(outs[0][1], stored))
+  ctx.check('the buffer is free again', sum(1 for x in sw._packet_buffer if x is not None) == 0)
+  del sent[:]
+  sw.rx_packet(pkt.ethernet(frame(3)), 1)
+  pis = [m for m in sent if isinstance(m, of.ofp_packet_in)]
+  ctx.check('the next miss gets a buffer (the pool of one is not leaked)', len(pis) == 1 and pis[0].buffer_id is not None)
+  ctx.witness('done')
+
+
 def obligations(tier):
   thorough = tier != 'quick'
   plans = PLANS_T + (['mmmPP', 'mcPmF', 'mPmPm', 'SmcPF', 'mmFPm', 'cmPPm'] if thorough else [])
@@ -316,6 +349,8 @@ def obligations(tier):
                      desc='a packet_out frame rewritten (tag pushed) and sent to the table where it misses: packet-in and buffer describe the rewritten frame'),
           Obligation('O6_snapshot', h_snapshot, [dict(via=v) for v in ('flow', 'packet_out', 'packet_out_table')], witnesses=('tag', 'address'),
                      desc='actions that go on rewriting the frame after output:CONTROLLER: the buffer holds the frame the packet-in showed'),
+          Obligation('O7_data_and_id', h_data_and_id, [dict()], witnesses=('done',),
+                     desc='a packet_out naming a buffer and carrying data: the buffer is used and freed'),
           Obligation('O4_bounce', h_history, bounce, witnesses=('done', 'bounced', 'released'), max_decisions=20000,
                      desc='a buffered packet sent to the controller again (packet_out / flow_mod with output:CONTROLLER): the new packet-in carries an id that really holds it'),
           Obligation('O3_two_switches', h_two_switches, [dict(pool2=k) for k in (0, 1, 2)], witnesses=('done', 'foreign-id', 'same-number'),
